@@ -32,3 +32,10 @@ def run(ctx):
     attackrules.prechecker_rule(ctx, facts, "Y7p")
     attackrules.pinned_rule(ctx, facts, "Y7")
     attackrules.checker_rule(ctx, facts, "Y7c")
+    ctx.decided.append(
+        "Y8 the outcome of mirrored positions: calc_outcome has no colour- or file-dependent input other than the winner (= opponent of the "
+        "side to move), and is_insufficient_material treats the two square colours alike - both mirrors exchange light and dark squares, so a "
+        "rule that holds for bishops on one square colour only would classify a position and its mirror image differently (= C07/O1, O2 re-run)")
+    from . import outcomerules
+    outcomerules.calc_outcome_rule(ctx, facts, "Y8o")
+    outcomerules.insufficient_rule(ctx, facts, "Y8")
